@@ -5,21 +5,33 @@ R-DOMAIN   the amplitude table handed to HelicityModel covers the summation doma
 R-SYMPAIR  symbols that are re-created at a consumer instead of being passed are constructed
            identically (name skeleton family, kind, assumptions) at every site.
 R-XSTORE   on every path through formulate a symbol is stored in at most one of
-           parameter_defaults / kinematic_variables.
+           parameter_defaults / kinematic_variables; the kinematic variables formulate modifies are its own.
 R-CREATE   coefficient / coupling symbols are registered as parameters where they are created.
 
 The rules that are anchored on one function (formulate, __formulate_dynamics, ...) read its *effective*
-body (sa/inline.py E3b ``flatten``): private helpers whose value is discarded are spliced back in, single
-``return E`` helpers are substituted, and locals that merely alias ``self.<path>`` are replaced by the path.
+body (sa/inline.py E3b ``flatten``): private helpers whose value is discarded are spliced back in (H-PROC), a phase
+that hands its result back is spliced in front of the statement that receives it (H-FUNC), single ``return E``
+helpers are substituted, and locals that merely alias ``self.<path>`` are replaced by the path.
+
+Every rule is THREE-VALUED: a violation is reported only with positive evidence (the construct was read and the
+necessary condition is broken: different assumptions at two sites that were both read, a parameter store on a
+path that provably keeps the key in the kinematic variables, a definition stored without substitution, ...).
+A construct the rule cannot read - a name built at run time, assumptions behind an unknown ``**kw``, a mapping
+handed to a function that is not followed, a loop of another shape - makes the rule raise AnalysisError
+("cannot decide", exit 2) with the place and the reason; it never becomes a violation and never a pass.
+Symbol names are read by ``sa/rules.NameReader`` (f-string / + / % / format / join, temporaries, loops over literal
+tables, parameters of private factories followed to their callers), mappings by identity (attribute path or local,
+through local aliases), helper extraction by ``flatten``, accumulators handed down by following the parameter.
 """
 
 from __future__ import annotations
 
 import ast
+import copy
 import re
 
 from ..dataflow import RD
-from ..inline import flatten
+from ..inline import Inliner, flatten
 from ..loader import AnalysisError, FuncInfo, Tree, ancestors, unparse, walk_function
 from ..paths import PathWalker
 from ..report import Check
@@ -99,16 +111,30 @@ def derives_from_domain(tree: Tree, fn: FuncInfo, expr: ast.AST, depth: int = 0,
     return None
 
 
-def _model_argument(tree: Tree, keyword: str) -> ast.AST:
-    """The value passed as ``keyword=`` to HelicityModel(...) in the effective formulate()."""
-    formulate = flatten(tree, tree.func(FORMULATE))
+def _model_call(tree: Tree, fn: FuncInfo | None = None) -> ast.Call:
+    """The one HelicityModel(...) construction in the effective formulate()."""
+    formulate = fn or flatten(tree, tree.func(FORMULATE))
     calls = [c for c, callee in tree.calls_in(formulate) if callee == MODEL]
     if len(calls) != 1:
-        raise AnalysisError(f"{FORMULATE}: expected one HelicityModel(...) construction")
-    arg = next((k.value for k in calls[0].keywords if k.arg == keyword), None)
-    if arg is None:
-        raise AnalysisError(f"HelicityModel(...) is not given {keyword}=")
-    return arg
+        raise AnalysisError(f"{FORMULATE}: expected one HelicityModel(...) construction, found {len(calls)}")
+    return calls[0]
+
+
+def _model_argument(tree: Tree, keyword: str, fn: FuncInfo | None = None) -> ast.AST:
+    """The value HelicityModel(...) receives for the field ``keyword`` in the effective formulate(): passed by
+    keyword, by position (order of the annotated fields of the class) or through a ``**{...}`` display."""
+    call = _model_call(tree, fn)
+    for k in call.keywords:
+        if k.arg == keyword:
+            return k.value
+        if k.arg is None and isinstance(k.value, ast.Dict):
+            for kk, vv in zip(k.value.keys, k.value.values):
+                if isinstance(kk, ast.Constant) and kk.value == keyword:
+                    return vv
+    fields = [st.target.id for st in tree.cls(MODEL).node.body if isinstance(st, ast.AnnAssign) and isinstance(st.target, ast.Name)]
+    if keyword in fields and not any(isinstance(a, ast.Starred) for a in call.args) and fields.index(keyword) < len(call.args):
+        return call.args[fields.index(keyword)]
+    raise AnalysisError(f"HelicityModel(...) in formulate: the argument for `{keyword}` is not found (keyword, position or ** display)")
 
 
 def _update_keys(call: ast.Call) -> list[ast.AST]:
@@ -122,6 +148,53 @@ def _update_keys(call: ast.Call) -> list[ast.AST]:
     if isinstance(arg, ast.Dict) and arg.keys and all(k is not None for k in arg.keys):
         return list(arg.keys)
     return [arg]
+
+
+def _table_stores(tree: Tree, reach: set[str], table: str) -> tuple[list[tuple[FuncInfo, ast.AST]], list[str]]:
+    """(stores into the amplitude table reachable from formulate, what could not be followed).
+
+    The table is named by its attribute path; a function of the package that RECEIVES the table as an argument
+    (an accumulator handed down to a helper) is scanned for stores into that parameter.  A store is `T[k] = v`,
+    `T.update(...)`, `T.setdefault(k, v)`, `T.__setitem__(k, v)`."""
+    stores: list[tuple[FuncInfo, ast.AST]] = []
+    unread: list[str] = []
+    work: list[tuple[FuncInfo, str, int]] = []
+    for q in sorted(reach):
+        fn = tree.funcs.get(q)
+        if fn is not None:
+            work.append((flatten(tree, fn, inline=False), table, 0))
+    seen: set[tuple[str, str]] = set()
+    while work:
+        fn, name, depth = work.pop(0)
+        if (fn.qual, name) in seen:
+            continue
+        seen.add((fn.qual, name))
+        for node in walk_function(fn.node, nested=False):
+            if isinstance(node, (ast.Assign, ast.AnnAssign, ast.AugAssign)):
+                tgt = node.targets[0] if isinstance(node, ast.Assign) else node.target
+                if isinstance(tgt, ast.Subscript) and unparse(tgt.value) == name:
+                    stores.append((fn, node))
+            if isinstance(node, ast.Call) and isinstance(node.func, ast.Attribute) and node.func.attr in {"update", "setdefault", "__setitem__"} and unparse(node.func.value) == name:
+                stores.append((fn, node))
+            if isinstance(node, ast.Call) and hasattr(node, "_module"):
+                args = [(i, a) for i, a in enumerate(node.args)] + [(k.arg, k.value) for k in node.keywords]
+                hits = [(pos, a) for pos, a in args if isinstance(a, (ast.Name, ast.Attribute)) and unparse(a) == name]
+                if not hits:
+                    continue
+                callee = tree.callee(node, fn)
+                g = tree.funcs.get(callee) if callee else None
+                if g is None:
+                    continue  # a class (HelicityModel(...)) or an external function: does not fill the table
+                params = [x.arg for x in [*g.node.args.posonlyargs, *g.node.args.args]]
+                if g.cls is not None and params and params[0] in {"self", "cls"} and not any(unparse(d) == "staticmethod" for d in g.node.decorator_list):
+                    params = params[1:]
+                for pos, _ in hits:
+                    p = pos if isinstance(pos, str) else params[pos] if isinstance(pos, int) and pos < len(params) else None
+                    if p is None or depth >= 3:
+                        unread.append(f"{fn.qual}: `{unparse(node)[:60]}` hands the table to {g.qual.split('::')[-1]}")
+                    else:
+                        work.append((flatten(tree, g, inline=False), p, depth + 1))
+    return stores, unread
 
 
 def check_domain(ctx: Check, tree: Tree) -> None:
@@ -141,22 +214,15 @@ def check_domain(ctx: Check, tree: Tree) -> None:
     if not domain_sites:
         raise AnalysisError("vanished anchor: no PoolSum whose indices derive from collect_spin_projections is reachable from formulate")
     # stores into the table
-    stores = []
-    for q in sorted(reach):
-        fn = tree.funcs.get(q)
-        if fn is None:
-            continue
-        fn = flatten(tree, fn, inline=False)
-        for node in walk_function(fn.node, nested=False):
-            if isinstance(node, ast.Assign) and isinstance(node.targets[0], ast.Subscript) and unparse(node.targets[0].value) == table:
-                stores.append((fn, node))
-            if isinstance(node, ast.Call) and isinstance(node.func, ast.Attribute) and node.func.attr in {"update", "setdefault"} and unparse(node.func.value) == table:
-                stores.append((fn, node))
+    stores, unread = _table_stores(tree, reach, table)
     if not stores:
         raise AnalysisError(f"no store into {table} reachable from formulate")
     covering = []
     for fn, node in stores:
-        key_exprs = [node.targets[0].slice] if isinstance(node, ast.Assign) else _update_keys(node)
+        if isinstance(node, ast.Call):
+            key_exprs = _update_keys(node)
+        else:
+            key_exprs = [(node.targets[0] if isinstance(node, ast.Assign) else node.target).slice]
         # the summation domain is the whole (unfolded) intensity - including the inner sums that
         # a spin alignment adds - not just the outer pools: the key must derive from the PoolSum
         DOMAIN_MARK["callee"] = "ampform.sympy::PoolSum"
@@ -177,6 +243,9 @@ def check_domain(ctx: Check, tree: Tree) -> None:
     fn0, call0 = domain_sites[0]
     if covering or consumer_default:
         ctx.ok("R-DOMAIN", tree.loc(call0), f"the amplitude table covers the domain of `{unparse(call0)[:60]}`: " + ("completion store present" if covering else "HelicityModel.expression defaults leftover Indexed atoms"))
+    elif unread:
+        # three-valued: a completion step may sit where the table could not be followed
+        raise AnalysisError("R-DOMAIN cannot decide: no store keyed from the summation domain was read, but " + "; ".join(unread)[:300])
     else:
         ctx.violation(
             "R-DOMAIN", key, tree.loc(call0),
@@ -199,40 +268,84 @@ def check_kinematic_domain(ctx: Check, tree: Tree) -> None:
     """The amplitude of a transition is also formulated for its identical-particle
     permutations (`_perform_combinatorics`), whose topologies differ from the ones in the
     reaction; their angle / mass symbols are only defined if those topologies are
-    registered in the adapter that produces the kinematic variables."""
+    registered in the adapter that produces the kinematic variables.
+
+    Three-valued: a violation needs that the symmetrised graphs are formulated and that NO call of an adapter method
+    that registers topologies receives them (or permutes all registered ones) in any effective method of the builder;
+    graphs / adapter handed to a function that is not read -> cannot decide."""
     builder = tree.cls(BUILDER)
-    users = []
+    if COMBINATORICS not in tree.funcs:
+        raise AnalysisError(f"vanished anchor: {COMBINATORICS} (identical-particle symmetrisation) not found")
+    graph = tree.call_graph()
+    own = set()
     for m in builder.methods.values():
-        for call, callee in tree.calls_in(m, nested=True):
-            if callee == COMBINATORICS:
-                users.append((m, call))
+        own |= tree.reachable(m.qual, graph)
+    # the symmetrised graphs, also as handed out by a helper (a function / generator of the package whose returned or
+    # yielded values are computed from `_perform_combinatorics(...)`, e.g. the frozen permuted transitions)
+    sources = {COMBINATORICS}
+    for _ in range(3):
+        grown = set(sources)
+        for q, f in tree.funcs.items():
+            if q in grown or not q.startswith("ampform.helicity::") or f.outer is not None:
+                continue
+            frd = None
+            for n in walk_function(f.node, nested=False):
+                v = n.value if isinstance(n, (ast.Return, ast.Yield, ast.YieldFrom)) else None
+                if v is None:
+                    continue
+                frd = frd or RD(f.node)
+                exprs = [v] + [d.value for d in frd.closure(frd.uses(v)) if d.value is not None]
+                if any(isinstance(c, ast.Call) and tree.callee(c, f) in sources for x in exprs for c in ast.walk(x)):
+                    grown.add(q)
+                    break
+        if grown == sources:
+            break
+        sources = grown
+    users = []
+    for q in sorted(own):
+        f = tree.funcs.get(q)
+        if f is None or not q.startswith("ampform.helicity::") or q in sources:
+            continue
+        for call, callee in tree.calls_in(f, nested=True):
+            if callee in sources:
+                users.append((f, call))
     if not users:
         ctx.info("R-KINDOMAIN", tree.loc(builder.node), "the builder no longer symmetrises over identical particles itself: nothing to register")
         return
     # is the symmetrised transition what the amplitude is formulated for?
     feeds = []
+    unread = []
     for m in builder.methods.values():
-        rd = RD(m.node)
-        for node in walk_function(m.node):
-            if not (isinstance(node, ast.Call) and isinstance(node.func, ast.Attribute) and node.func.attr in ADAPTER_FEEDS):
+        gf = flatten(tree, m)
+        rd = RD(gf.node)
+
+        def from_combinatorics(e: ast.AST, gf=gf, rd=rd) -> bool:
+            exprs = [e] + [d.value for d in rd.closure(rd.uses(e)) if d.value is not None]
+            return any(isinstance(n, ast.Call) and hasattr(n, "_module") and tree.callee(n, gf) in sources for x in exprs for n in ast.walk(x))
+
+        for node in walk_function(gf.node):
+            if not (isinstance(node, ast.Call) and hasattr(node, "_module")):
                 continue
-            recv = unparse(node.func.value)
-            if "adapter" not in recv:
+            callee = tree.callee(node, gf) or ""
+            is_adapter_method = isinstance(node.func, ast.Attribute) and node.func.attr in ADAPTER_FEEDS and ("adapter" in unparse(node.func.value).lower() or callee.startswith("ampform.kinematics::HelicityAdapter."))
+            if is_adapter_method:
+                if node.func.attr == "permutate_registered_topologies":  # type: ignore[union-attr]
+                    feeds.append((m, node, "permutes every registered topology"))
+                elif any(from_combinatorics(a) for a in [*node.args, *[k.value for k in node.keywords]]):
+                    feeds.append((m, node, "registers the symmetrised transitions"))
                 continue
-            if node.func.attr == "permutate_registered_topologies":
-                feeds.append((m, node, "permutes every registered topology"))
-                continue
-            srcs = []
-            for a in node.args:
-                srcs.append(unparse(a))
-                srcs += [unparse(d.value) for d in rd.closure(rd.uses(a)) if d.value is not None]
-            if any("_perform_combinatorics(" in t for t in srcs):
-                feeds.append((m, node, "registers the symmetrised transitions"))
+            if callee in tree.funcs and callee not in sources and not callee.startswith("ampform.kinematics::HelicityAdapter."):
+                args = [*node.args, *[k.value for k in node.keywords]]
+                hands_adapter = any("adapter" in unparse(a).lower() and isinstance(a, (ast.Name, ast.Attribute)) for a in args)
+                if hands_adapter:
+                    unread.append(f"{m.name}: `{unparse(node)[:60]}` hands the adapter to a function that is not read")
     m0, call0 = users[0]
     key = f"{BUILDER}::symmetrised-topologies-not-registered"
     if feeds:
         fm, fnode, how = feeds[0]
         ctx.ok("R-KINDOMAIN", tree.loc(fnode), f"{fm.qual}: `{unparse(fnode)[:60]}` {how}, so the kinematic variables cover the topologies of `{unparse(call0)}`")
+    elif unread:
+        raise AnalysisError("R-KINDOMAIN cannot decide: " + "; ".join(unread)[:300])
     else:
         ctx.violation(
             "R-KINDOMAIN", key, tree.loc(call0),
@@ -254,23 +367,54 @@ def family(skeleton: str) -> str:
     return s
 
 
+def _within(tree: Tree, reader, site_fn: str, producer: str, depth: int = 0) -> bool:
+    """Is the function ``site_fn`` part of the producer ``producer`` (a function NAME): the producer itself, a
+    function nested in it, or a private helper that only (transitively) the producer calls?"""
+    names = site_fn.split("::")[-1].split(".")
+    if producer in names:
+        return True
+    fn = tree.funcs.get(site_fn)
+    if fn is None or depth > 4 or not reader.is_private(fn):
+        return False
+    callers = reader.callers(fn)
+    return bool(callers) and all(_within(tree, reader, c.qual, producer, depth + 1) for c, _ in callers)
+
+
+def _literal_text(fam: str) -> str:
+    return fam.replace("{}", "")
+
+
 def check_sympairs(ctx: Check, tree: Tree) -> None:
+    """Three-valued: a family DISAGREES (violation) only if two sites whose names were read construct it with
+    different kind / assumptions; a site whose assumptions cannot be read, a producer whose construction is not
+    found, a constructor that is passed around as a value -> cannot decide (AnalysisError)."""
+    from ..rules import _name_reader, symbol_ctor_escapes
+
+    reader = _name_reader(tree)
     sites = symbol_sites(tree, [m + "::" for m in ()] or FAMILY_MODULES)
     ctx.stats["symbol_sites"] = len(sites)
     if len(sites) < 35:
         raise AnalysisError(f"only {len(sites)} symbol construction sites in helicity/kinematics (45+ confirmed)")
+    undecided: list[str] = []
+    for fn, node in symbol_ctor_escapes(tree, FAMILY_MODULES):
+        undecided.append(f"{fn.qual}: a symbol constructor is used as a value (`{unparse(getattr(node, '_parent', node))[:60]}`): the symbols constructed through it are not seen")
     groups: dict[str, list[dict]] = {}
     dynamic = 0
     for s in sites:
         if s["skeleton"] is None:
             dynamic += 1
-            ctx.info("R-SYMPAIR", tree.loc(s["node"]), f"{s['fn']}: symbol name computed at run time (`{unparse(s['node'])[:60]}`)")
+            if s["assumptions"]:
+                # the symbol is constructed WITH assumptions, so it belongs to some family - but to which one is not read
+                undecided.append(f"{s['fn']}: `{unparse(s['node'])[:60]}` constructs a symbol with assumptions {sorted(s['assumptions'])} under a name that is only known at run time ({', '.join(s['holes']) or '?'}): its family cannot be compared")
+            else:
+                ctx.info("R-SYMPAIR", tree.loc(s["node"]), f"{s['fn']}: symbol name computed at run time (`{unparse(s['node'])[:60]}`)")
             continue
         names = re.split(r"[,\s]+", s["skeleton"].strip()) if s["kind"] == "Symbol" and (" " in s["skeleton"].strip() or "," in s["skeleton"]) else [s["skeleton"]]
         for nm in names:
             if nm:
                 groups.setdefault(family(nm), []).append(s)
     ctx.stats["symbol_families"] = len(groups)
+    ctx.stats["symbol_names_only_known_at_run_time"] = dynamic
     required = {
         "m_{}": ("mass symbols: formulate / get_invariant_mass_symbol / DPD angle formulas", 3),
         "alpha{}": ("Wigner rotation angle alpha: formulate_wigner_rotation <-> compute_wigner_angles", 2),
@@ -284,11 +428,27 @@ def check_sympairs(ctx: Check, tree: Tree) -> None:
         if len(fns) < min_fns:
             raise AnalysisError(f"symbol family `{fam}` ({what}) found at {len(fns)} functions only: {sorted(fns)}")
     for fam, members in sorted(groups.items()):
-        sigs = {(m["kind"], tuple(sorted(m["assumptions"].items())), m["star_kwargs"]) for m in members}
+        if not _literal_text(fam):
+            # a name without any literal text says nothing by itself: only sites whose run-time pieces come from
+            # the same function (`...{get_helicity_suffix(...)}`) are known to construct the same symbols
+            by_source: dict[str, list[dict]] = {}
+            for m in members:
+                for src in sorted({h for h in m["holes"] if h.startswith("call:")}):
+                    by_source.setdefault(src, []).append(m)
+            keep = [m for ms in by_source.values() if len({id(x["node"]) for x in ms}) > 1 for m in ms]
+            loose = [m for m in members if not any(m is k for k in keep)]
+            for m in loose:
+                ctx.info("R-SYMPAIR", tree.loc(m["node"]), f"{m['fn']}: `{unparse(m['node'])[:60]}` - every piece of the name is computed at run time and shares no source with another site: not compared")
+            members = list({id(m): m for m in keep}.values())
+        if len({id(m["node"]) for m in members}) < 2:
+            continue
+        unread = sorted({f"{m['fn']}: {u}" for m in members for u in m.get("unread", [])})
+        if unread:
+            undecided.append(f"symbol family `{fam}`: the assumptions of a site cannot be read ({'; '.join(unread)[:200]})")
+            continue
+        sigs = {(m["kind"], tuple(sorted(m["assumptions"].items()))) for m in members}
         fns = sorted({m["fn"].split("::")[-1] for m in members})
         where = tree.loc(members[0]["node"])
-        if len(members) == 1:
-            continue
         ok = len(sigs) == 1
         detail = None
         if not ok:
@@ -298,73 +458,398 @@ def check_sympairs(ctx: Check, tree: Tree) -> None:
     # single producers
     for fam, producer in (("m{}", "create_spin_projection_symbol"), ("phi{}", "get_helicity_angle_symbols"), ("theta{}", "get_helicity_angle_symbols"), ("A^{}", "create_amplitude_base")):
         members = groups.get(fam, [])
-        fns = {m["fn"].split("::")[-1] for m in members}
-        ctx.verdict(fns == {producer}, "R-SYMPAIR", f"helicity+kinematics::single producer `{fam}`", tree.loc(members[0]["node"]) if members else "src/ampform/helicity/naming.py",
-                    f"symbols `{fam}` are only ever constructed by {producer}", None if fns == {producer} else sorted(fns))
+        if not members:
+            undecided.append(f"single producer `{fam}`: no construction of a `{fam}` symbol was read (does {producer} still build the name in a way that is understood?)")
+            continue
+        outside = sorted({m["fn"] for m in members if not _within(tree, reader, m["fn"], producer)})
+        ctx.verdict(not outside, "R-SYMPAIR", f"helicity+kinematics::single producer `{fam}`", tree.loc(members[0]["node"]),
+                    f"symbols `{fam}` are only ever constructed by {producer}", None if not outside else [q.split("::")[-1] for q in outside])
     # both Wigner-angle sites derive their suffix from get_helicity_suffix(topology, state)
     for q in ("ampform.helicity.align.axisangle::formulate_wigner_rotation", "ampform.kinematics.angles::compute_wigner_angles"):
         fn = tree.func(q)
-        rd = RD(fn.node)
-        members = [m for fam in ("alpha{}", "beta{}", "gamma{}") for m in groups.get(fam, []) if m["fn"] == q]
-        ok = bool(members)
-        for m_ in members:
-            name_node = m_["node"].args[0]
-            placeholders = [v.value for v in ast.walk(name_node) if isinstance(v, ast.FormattedValue)]
-            for ph in placeholders:
-                srcs = [unparse(ph)] + [unparse(d.value) for d in rd.closure(rd.uses(ph)) if d.value is not None]
-                if not any("get_helicity_suffix(" in t for t in srcs):
-                    ok = False
-        ctx.verdict(ok, "R-SYMPAIR", f"{q}::suffix", tree.loc(fn.node), f"{q.split('::')[-1]}: the angle suffix is get_helicity_suffix(topology, state id)")
-    # the back-substitution filter in formulate selects exactly the mass family
-    # (read in the effective formulate: a private helper that selects the symbols is part of it, sa/inline.py E3b)
-    formulate = flatten(tree, tree.func(FORMULATE))
-    ok = False
-    for comp in [n for n in walk_function(formulate.node) if isinstance(n, (ast.ListComp, ast.GeneratorExp, ast.SetComp))]:
-        gen = comp.generators[0]
-        if not isinstance(gen.target, ast.Name):
+        members = [m for fam in ("alpha{}", "beta{}", "gamma{}") for m in groups.get(fam, []) if _within(tree, reader, m["fn"], fn.name)]
+        if not members:
+            undecided.append(f"{q}: no construction of the alpha / beta / gamma symbols was read inside it")
             continue
-        v = gen.target.id
-        conjuncts = [c for t in gen.ifs for c in (t.values if isinstance(t, ast.BoolOp) and isinstance(t.op, ast.And) else [t])]
-        tests = [unparse(t).replace('"', "'") for t in conjuncts]
-        if any(t == f"{v}.name.startswith('m_')" for t in tests) and any(t == f"{v}.is_nonnegative" for t in tests):
-            ok = True
-    ctx.verdict(ok, "R-SYMPAIR", f"{FORMULATE}::mass-filter", tree.loc(formulate.node), "formulate recognises leftover mass symbols by the `m_` prefix and the nonnegative assumption of the family")
+        other = sorted({h for m_ in members for h in m_["holes"] if h != "call:get_helicity_suffix"})
+        unknown = [h for h in other if not h.startswith("call:")]
+        if unknown:
+            undecided.append(f"{q}: where the angle suffix comes from is not understood ({', '.join(unknown)})")
+            continue
+        ok = not other and all(m_["holes"] for m_ in members)
+        if not other and not ok:
+            undecided.append(f"{q}: an alpha / beta / gamma symbol is constructed with a literal name")
+            continue
+        ctx.verdict(ok, "R-SYMPAIR", f"{q}::suffix", tree.loc(fn.node), f"{q.split('::')[-1]}: the angle suffix is get_helicity_suffix(topology, state id)",
+                    None if ok else f"the suffix comes from {', '.join(o.split(':', 1)[1] for o in other)}")
+    _check_mass_filter(ctx, tree, groups, undecided)
+    if undecided:
+        raise AnalysisError("R-SYMPAIR cannot decide: " + " | ".join(undecided))
+
+
+def _free_symbol_elements(fn: FuncInfo, rd: RD) -> set[int]:
+    """ids of the Name loads in ``fn`` that stand for ONE element of `<expr>.free_symbols` / `<expr>.atoms(...)`:
+    comprehension / loop variables over such a set (possibly sorted / filtered) and parameters of a lambda that is
+    handed to filter / map over it."""
+    def from_symbols(e: ast.AST | None) -> bool:
+        if e is None:
+            return False
+        for n in ast.walk(e):
+            if isinstance(n, ast.Attribute) and n.attr in {"free_symbols", "atoms"}:
+                return True
+            if isinstance(n, ast.Name) and isinstance(n.ctx, ast.Load):
+                if any(d.value is not None and d.kind in {"assign", "for", "comp"} and from_symbols_def(d) for d in rd.reaching(n)):
+                    return True
+        return False
+
+    seen: dict[int, bool] = {}
+
+    def from_symbols_def(d) -> bool:
+        if id(d) in seen:
+            return seen[id(d)]
+        seen[id(d)] = False
+        seen[id(d)] = from_symbols(d.value)
+        return seen[id(d)]
+
+    out: set[int] = set()
+    for n in walk_function(fn.node):
+        if isinstance(n, ast.Name) and isinstance(n.ctx, ast.Load):
+            for d in rd.reaching(n):
+                if d.kind in {"for", "comp"} and d.index is None and from_symbols_def(d):
+                    out.add(id(n))
+                elif d.kind == "lambda":
+                    lam = next((a for a in ancestors(d.node) if isinstance(a, ast.Lambda)), None)
+                    call = getattr(lam, "_parent", None) if lam is not None else None
+                    if isinstance(call, ast.Call) and isinstance(call.func, ast.Name) and call.func.id in {"filter", "map"} and call.args and call.args[0] is lam \
+                            and any(from_symbols(a) for a in call.args[1:]):
+                        out.add(id(n))
+    return out
+
+
+def _check_mass_filter(ctx: Check, tree: Tree, groups: dict, undecided: list[str]) -> None:
+    """The back-substitution in formulate recognises leftover mass symbols among the free symbols of an angle
+    definition by NAME and ASSUMPTION; both must fit how the `m_{}` family is constructed.  Read in the effective
+    formulate (sa/inline.py E3b): a private helper / predicate that selects the symbols is part of it."""
+    formulate = flatten(tree, tree.func(FORMULATE))
+    rd = RD(formulate.node)
+    elements = _free_symbol_elements(formulate, rd)
+    prefixes: list[tuple[str, ast.AST]] = []
+    assumptions: list[tuple[str, ast.AST]] = []
+    strange: list[str] = []
+    for n in walk_function(formulate.node):
+        if isinstance(n, ast.Attribute) and isinstance(n.value, ast.Name) and id(n.value) in elements:
+            par = getattr(n, "_parent", None)
+            if n.attr.startswith("is_"):
+                assumptions.append((n.attr[3:], n))
+            elif n.attr == "name":
+                # <s>.name.startswith(P) / <s>.name[:k] == P
+                call = getattr(par, "_parent", None) if isinstance(par, ast.Attribute) and par.attr == "startswith" else None
+                if isinstance(call, ast.Call) and call.func is par and len(call.args) == 1:
+                    arg = call.args[0]
+                    lits = [arg] if isinstance(arg, ast.Constant) else list(arg.elts) if isinstance(arg, ast.Tuple) else []
+                    if lits and all(isinstance(x, ast.Constant) and isinstance(x.value, str) for x in lits):
+                        prefixes += [(x.value, call) for x in lits]
+                    else:
+                        strange.append(unparse(call)[:60])
+                elif isinstance(par, ast.Subscript) and isinstance(par.slice, ast.Slice) and par.slice.lower is None and isinstance(getattr(par, "_parent", None), ast.Compare):
+                    cmp_ = par._parent  # type: ignore[attr-defined]
+                    other = [c for c in [cmp_.left, *cmp_.comparators] if c is not par]
+                    if len(cmp_.ops) == 1 and isinstance(cmp_.ops[0], ast.Eq) and len(other) == 1 and isinstance(other[0], ast.Constant) and isinstance(other[0].value, str):
+                        prefixes.append((other[0].value, cmp_))
+                    else:
+                        strange.append(unparse(cmp_)[:60])
+                elif isinstance(par, (ast.JoinedStr, ast.FormattedValue)) or (isinstance(par, ast.Call) and par.func is not n and not isinstance(getattr(par, "_parent", None), (ast.If, ast.BoolOp, ast.comprehension))):
+                    pass  # the name is only printed / passed on
+                else:
+                    strange.append(unparse(par if par is not None else n)[:60])
+    mass = groups.get("m_{}", [])
+    family_assumptions = {k for m in mass for k, v in m["assumptions"].items() if v == "True"}
+    where = tree.loc(formulate.node)
+    key = f"{FORMULATE}::mass-filter"
+    what = "formulate recognises leftover mass symbols by the `m_` prefix and the nonnegative assumption of the family"
+    wrong = []
+    for pfx, node in prefixes:
+        if not "m_".startswith(pfx) and not pfx.startswith("m_"):
+            wrong.append(f"`{unparse(node)[:60]}` matches no `m_...` symbol")
+        elif pfx != "m_":
+            strange.append(f"{unparse(node)[:60]} (another prefix than `m_`)")
+    for a, node in assumptions:
+        if a not in family_assumptions:
+            wrong.append(f"`{unparse(node)[:40]}` is not an assumption the `m_...` symbols are constructed with ({sorted(family_assumptions)})")
+    if wrong:
+        ctx.violation("R-SYMPAIR", key, where, what, wrong)
+    elif strange or not prefixes or not assumptions:
+        undecided.append(f"{FORMULATE}: how leftover mass symbols are recognised among the free symbols is not understood"
+                         + (f" ({'; '.join(strange)[:160]})" if strange else f" ({len(prefixes)} name-prefix test(s), {len(assumptions)} assumption test(s) found)"))
+    else:
+        ctx.ok("R-SYMPAIR", where, what)
 
 
 # --------------------------------------------------------------------------- R-XSTORE
+
+
+class _Maps:
+    """The two mappings of R-XSTORE inside the effective formulate and the operations on them.
+
+    A mapping is named by an attribute path rooted at ``self`` (H-ALIAS already replaced local aliases of such a
+    path that cannot be stale) or by a local; a local that merely aliases another local (``kv = kinematic_variables``)
+    stands for that local.  Operations that are read: ``M[k] = v``, ``M.__setitem__(k, v)``, ``M.setdefault(k, v)``,
+    ``M.update({k: v, ...})`` (stores of k) and ``del M[k]``, ``M.pop(k[, d])``, ``M.__delitem__(k)`` (removals)."""
+
+    def __init__(self, fn: FuncInfo, rd: RD, par: ast.AST, kin: ast.AST) -> None:
+        self.fn, self.rd = fn, rd
+        self.par, self.kin = self.ident(par), self.ident(kin)
+        self.par_text, self.kin_text = unparse(par), unparse(kin)
+
+    def ident(self, e: ast.AST, depth: int = 0):
+        if isinstance(e, ast.Name) and depth < 8:
+            defs = self.rd.reaching(e) if isinstance(e.ctx, ast.Load) else set()
+            if len(defs) == 1:
+                d = next(iter(defs))
+                if d.kind == "assign" and d.index is None and isinstance(d.value, ast.Name):
+                    return self.ident(d.value, depth + 1)
+            return ("local", e.id)
+        return ("path", unparse(e))
+
+    def key(self, k: ast.AST) -> str:
+        """Text of a key; a local that merely aliases another local stands for that local."""
+        if isinstance(k, ast.Name):
+            i = self.ident(k)
+            return i[1]
+        return unparse(k)
+
+    def ops(self, st: ast.AST) -> list[tuple[str, str, ast.AST, ast.AST]]:
+        """[(\"store\" | \"del\", \"par\" | \"kin\", key expression, node)] of one simple statement."""
+        out = []
+
+        def which(recv: ast.AST) -> str | None:
+            i = self.ident(recv)
+            return "par" if i == self.par else "kin" if i == self.kin else None
+
+        if isinstance(st, (ast.Assign, ast.AnnAssign, ast.AugAssign)):
+            for t in (st.targets if isinstance(st, ast.Assign) else [st.target]):
+                if isinstance(t, ast.Subscript) and which(t.value):
+                    out.append(("store", which(t.value), t.slice, st))
+        if isinstance(st, ast.Delete):
+            for t in st.targets:
+                if isinstance(t, ast.Subscript) and which(t.value):
+                    out.append(("del", which(t.value), t.slice, st))
+        for n in ast.walk(st):
+            if isinstance(n, (ast.Lambda, ast.FunctionDef)):
+                continue
+            if isinstance(n, ast.Call) and isinstance(n.func, ast.Attribute) and which(n.func.value):
+                m, attr = which(n.func.value), n.func.attr
+                if attr in {"pop", "__delitem__"} and n.args:
+                    out.append(("del", m, n.args[0], st))
+                elif attr in {"setdefault", "__setitem__"} and n.args:
+                    out.append(("store", m, n.args[0], st))
+                elif attr == "update" and len(n.args) == 1 and isinstance(n.args[0], ast.Dict) and all(k is not None for k in n.args[0].keys):
+                    out += [("store", m, k, st) for k in n.args[0].keys]
+        return out
+
+    def unread_mutation(self, st: ast.AST, tree: Tree) -> str | None:
+        """Something in this statement may remove keys from the kinematic variables in a way that is not read: the
+        local is re-bound, or the mapping is handed to a function of the package that was not spliced in."""
+        if isinstance(st, (ast.Assign, ast.AnnAssign, ast.AugAssign)):
+            for t in (st.targets if isinstance(st, ast.Assign) else [st.target]):
+                if isinstance(t, ast.Name) and ("local", t.id) == self.kin:
+                    return f"`{unparse(st)[:60]}` re-binds the kinematic variables"
+        for n in ast.walk(st):
+            if isinstance(n, ast.Call):
+                args = [*n.args, *[k.value for k in n.keywords]]
+                if any(isinstance(a, (ast.Name, ast.Attribute)) and self.ident(a) == self.kin for a in args):
+                    callee = tree.callee(n, self.fn) if hasattr(n, "_module") else None
+                    if callee in tree.funcs:
+                        return f"`{unparse(n)[:60]}` hands the kinematic variables to {callee.split('::')[-1]}"
+                if isinstance(n.func, ast.Attribute) and self.ident(n.func.value) == self.kin and n.func.attr in {"clear", "popitem", "difference_update", "__init__"}:
+                    return f"`{unparse(n)[:60]}`"
+        return None
+
+
+def _relevant_slice(fn: FuncInfo, maps: _Maps, key_names: set[str]) -> FuncInfo:
+    """A copy of the effective formulate reduced to what R-XSTORE looks at: the operations on the two mappings, the
+    (re)definitions of the locals that occur in their keys, and the control flow that can reach or skip them.
+    Compound statements without any of these (and everything nested in them) are dropped, so unrelated branching
+    neither multiplies the paths nor matters."""
+    def simple_relevant(st: ast.stmt) -> bool:
+        if isinstance(st, ast.Return):
+            return True
+        if maps.ops(st):
+            return True
+        if isinstance(st, (ast.Assign, ast.AnnAssign, ast.AugAssign)):
+            targets = st.targets if isinstance(st, ast.Assign) else [st.target]
+            names = {n.id for t in targets for n in ast.walk(t) if isinstance(n, ast.Name)}
+            if names & key_names or any(("local", n) in (maps.kin, maps.par) for n in names):
+                return True
+        return False
+
+    def escapes(st: ast.stmt, in_loop: bool) -> bool:
+        """a continue / break that leaves a loop outside ``st``"""
+        if isinstance(st, (ast.Continue, ast.Break)):
+            return not in_loop
+        if isinstance(st, (ast.For, ast.While, ast.AsyncFor)):
+            return any(escapes(x, True) for x in st.body) or any(escapes(x, in_loop) for x in st.orelse)
+        for fld in ("body", "orelse", "finalbody"):
+            if any(escapes(x, in_loop) for x in getattr(st, fld, None) or [] if isinstance(x, ast.stmt)):
+                return True
+        return any(escapes(x, in_loop) for h in getattr(st, "handlers", None) or [] for x in h.body)
+
+    keep: set[int] = set()
+
+    def mark(stmts: list[ast.stmt]) -> bool:
+        any_kept = False
+        for st in stmts:
+            if isinstance(st, (ast.FunctionDef, ast.AsyncFunctionDef, ast.ClassDef)):
+                continue
+            compound = any(isinstance(getattr(st, f, None), list) and getattr(st, f) and isinstance(getattr(st, f)[0], ast.stmt) for f in ("body", "orelse", "finalbody")) or getattr(st, "handlers", None)
+            if compound:
+                inner = False
+                for fld in ("body", "orelse", "finalbody"):
+                    blk = getattr(st, fld, None)
+                    if isinstance(blk, list) and blk and isinstance(blk[0], ast.stmt):
+                        inner = mark(blk) or inner
+                for h in getattr(st, "handlers", None) or []:
+                    inner = mark(h.body) or inner
+                if inner or escapes(st, False):
+                    keep.add(id(st))
+                    any_kept = True
+            elif isinstance(st, (ast.Continue, ast.Break)) or simple_relevant(st):
+                keep.add(id(st))
+                any_kept = True
+        return any_kept
+
+    mark(fn.node.body)
+    def rebuild(stmts: list[ast.stmt]) -> list[ast.stmt]:
+        out = []
+        for st in stmts:
+            if id(st) not in keep:
+                continue
+            compound = [f for f in ("body", "orelse", "finalbody") if isinstance(getattr(st, f, None), list) and getattr(st, f) and isinstance(getattr(st, f)[0], ast.stmt)]
+            if compound or getattr(st, "handlers", None):
+                new = copy.copy(st)
+                for f in ("body", "orelse", "finalbody"):
+                    if isinstance(getattr(st, f, None), list):
+                        setattr(new, f, rebuild(getattr(st, f)))
+                if getattr(st, "handlers", None):
+                    new.handlers = []
+                    for h in st.handlers:
+                        nh = copy.copy(h)
+                        nh.body = rebuild(h.body) or [ast.copy_location(ast.Pass(), h)]
+                        new.handlers.append(nh)
+                if not new.body:
+                    new.body = [ast.copy_location(ast.Pass(), st)]
+                out.append(new)
+            else:
+                out.append(st)
+        return out
+
+    node = copy.copy(fn.node)
+    node.body = rebuild(fn.node.body) or [ast.Pass()]
+    return FuncInfo(fn.qual, node, fn.module, fn.cls, fn.outer)
 
 
 def check_xstore(ctx: Check, tree: Tree) -> None:
     # the effective formulate (sa/inline.py E3b): statements that were extracted into private helper methods are
     # spliced back in, and local aliases of the two mappings are replaced by the attribute paths they stand for
     fn = flatten(tree, tree.func(FORMULATE))
-    model_call = next(c for c, callee in tree.calls_in(fn) if callee == MODEL)
-    par = unparse(next(k.value for k in model_call.keywords if k.arg == "parameter_defaults"))
-    kin = unparse(next(k.value for k in model_call.keywords if k.arg == "kinematic_variables"))
     rd = RD(fn.node)
-
-    def is_store(node, mapping):
-        return isinstance(node, ast.Assign) and isinstance(node.targets[0], ast.Subscript) and unparse(node.targets[0].value) == mapping
-
-    def is_del(node, mapping):
-        return isinstance(node, ast.Delete) and isinstance(node.targets[0], ast.Subscript) and unparse(node.targets[0].value) == mapping
-
+    maps = _Maps(fn, rd, _model_argument(tree, "parameter_defaults", fn), _model_argument(tree, "kinematic_variables", fn))
+    par, kin = maps.par_text, maps.kin_text
+    if maps.par == maps.kin:
+        raise AnalysisError(f"{FORMULATE}: parameter defaults and kinematic variables are the same expression `{par}`")
+    # a store through a local that was bound to the path of a mapping but is NOT that mapping for the rules (the
+    # alias may be stale, H-ALIAS refused it): what is stored where cannot be decided
+    for n in walk_function(fn.node):
+        if isinstance(n, ast.Name) and isinstance(n.ctx, ast.Load) and isinstance(getattr(n, "_parent", None), (ast.Subscript, ast.Attribute)):
+            for d in rd.reaching(n):
+                if d.kind == "assign" and d.index is None and isinstance(d.value, ast.Attribute) and maps.ident(d.value) in (maps.par, maps.kin) and maps.ident(n) not in (maps.par, maps.kin):
+                    raise AnalysisError(f"{FORMULATE}: `{n.id}` was bound to `{unparse(d.value)}` but may be stale where it is used (the path is re-bound in between): stores through it cannot be attributed")
+    all_ops = [op for st in walk_function(fn.node) if isinstance(st, ast.stmt) and not isinstance(st, (ast.If, ast.For, ast.While, ast.Try, ast.With, ast.FunctionDef)) for op in maps.ops(st)]
+    key_names = {n.id for _, _, k, _ in all_ops for n in ast.walk(k) if isinstance(n, ast.Name)}
+    key_names |= {maps.key(k) for _, _, k, _ in all_ops if isinstance(k, ast.Name)}
+    sliced = _relevant_slice(fn, maps, key_names)
     walker = PathWalker(tree)
-    paths = walker.paths(fn)
+    paths = walker.paths(sliced)
     ctx.stats["formulate_paths"] = len(paths)
+    # the kinematic variables exist from their (single) definition on; parameters registered before that
+    # (coefficients, couplings, dynamics parameters) are not mass symbols of the adapter - out of scope here
+    kin_defs = [d.node for d in rd.defs if maps.kin[0] == "local" and d.name == maps.kin[1] and d.kind == "assign"]
     par_sites: dict[int, ast.AST] = {}
     conflicts: dict[int, tuple] = {}
     unpaired: dict[int, tuple] = {}
     readds: dict[int, tuple] = {}
+    undecided: list[str] = []
+    free_elements = _free_symbol_elements(fn, rd)
+    angle_defs = _alignment_definitions(rd)
+
+    def collected_free_symbols(coll: ast.Name) -> bool:
+        """a local list / set that is filled (display, comprehension, append / add / extend) with free symbols only"""
+        todo, seen, any_element = list(rd.reaching(coll)), set(), False
+        while todo:
+            d = todo.pop()
+            if d in seen:
+                continue
+            seen.add(d)
+            if d.kind == "store" and isinstance(d.node, ast.Call) and isinstance(d.node.func, ast.Attribute) and d.node.func.attr in {"append", "add", "extend", "insert"} and d.node.args:
+                arg = d.node.args[-1]
+                if not (isinstance(arg, ast.Name) and (id(arg) in free_elements or (d.node.func.attr == "extend" and collected_free_symbols(arg)))):
+                    return False
+                any_element = True
+                todo += [x for x in d.deps if x.name == d.name]
+            elif d.kind == "assign" and d.index is None and isinstance(d.value, (ast.List, ast.Set, ast.Tuple)) and not d.value.elts:
+                continue
+            elif d.kind == "assign" and d.index is None and isinstance(d.value, ast.Call) and isinstance(d.value.func, ast.Name) and d.value.func.id in {"list", "set"} and not d.value.args:
+                continue
+            elif d.kind == "assign" and d.index is None and isinstance(d.value, (ast.ListComp, ast.SetComp, ast.GeneratorExp)) and isinstance(d.value.elt, ast.Name) and id(d.value.elt) in free_elements:
+                any_element = True
+            else:
+                return False
+        return any_element
+
+    def key_kind(key: ast.Name) -> str:
+        """Can this key of a store into the kinematic variables be a mass symbol?  "mass": a free symbol of an
+        expression / a symbol constructed with an `m_...` name; "other": a key of the alignment definitions, a
+        symbol constructed with another name; "unknown" otherwise."""
+        if id(key) in free_elements:
+            return "mass"
+        kinds = set()
+        for d in rd.reaching(key):
+            if d.kind == "for" and d.value is not None:
+                it = d.value
+                while isinstance(it, ast.Call) and ((isinstance(it.func, ast.Name) and it.func.id in {"sorted", "list", "tuple", "reversed"} and it.args) or (isinstance(it.func, ast.Attribute) and it.func.attr in {"items", "keys"})):
+                    it = it.args[0] if isinstance(it.func, ast.Name) else it.func.value
+                if isinstance(it, ast.Name) and _object_defs(rd, it) and _object_defs(rd, it) <= angle_defs and (d.index in (None, 0)):
+                    kinds.add("other")
+                    continue
+                if isinstance(it, ast.Name) and collected_free_symbols(it):
+                    kinds.add("mass")
+                    continue
+                src = [n for n in ast.walk(d.value) if isinstance(n, ast.Name) and isinstance(n.ctx, ast.Load)]
+                if src and all(id(n) in free_elements or any(x.kind in {"assign", "comp", "for"} and x.value is not None and any(isinstance(a, ast.Attribute) and a.attr in {"free_symbols", "atoms"} for a in ast.walk(x.value)) for x in _plain_closure(rd, rd.reaching(n))) for n in src):
+                    kinds.add("mass")
+                    continue
+            if d.kind == "assign" and d.index is None and isinstance(d.value, ast.Call) and tree.callee(d.value, fn) in {"sympy.Symbol", "sympy.Dummy"} and d.value.args:
+                from ..rules import NameReader, _name_reader
+
+                texts = {NameReader.text(a) for a in _name_reader(tree).read(d.value.args[0], fn)}
+                kinds.add("mass" if any(t is None or t.startswith("m_") or t.startswith("{}") for t in texts) else "other")
+                continue
+            kinds.add("unknown")
+        if not kinds or "unknown" in kinds:
+            return "unknown"
+        return "mass" if "mass" in kinds else "other"
+
     for p in paths:
         # replay per loop iteration: state is reset at each ("iter", loop) of an inner loop over symbols
         events = p.events
+        live = not kin_defs
         open_par: dict[str, ast.AST] = {}  # key name -> store node still unpaired
         par_keys: dict[str, ast.AST] = {}
         kin_keys: dict[str, ast.AST] = {}
         deleted: set[str] = set()
-        fam_dels: dict[str, ast.AST] = {}  # domain text -> del executed once per element of that domain
+        fam_dels: dict[str, tuple] = {}  # domain text -> (del executed once per element of that domain, domain expression)
         since_iter: list[tuple] = []  # tests evaluated in the current iteration of the innermost loop
+        unread: str | None = None
         for ev in events:
             if ev[0] == "iter":
                 since_iter = []
@@ -381,44 +866,63 @@ def check_xstore(ctx: Check, tree: Tree) -> None:
             if ev[0] != "stmt":
                 continue
             node = ev[1]
-            if isinstance(node, ast.Assign) and isinstance(node.targets[0], ast.Name):
+            if any(node is d for d in kin_defs):
+                live = True
+                continue
+            if isinstance(node, (ast.Assign, ast.AnnAssign)) and isinstance(node.targets[0] if isinstance(node, ast.Assign) else node.target, ast.Name):
                 # re-definition of a key variable
-                open_par.pop(node.targets[0].id, None)
-                par_keys.pop(node.targets[0].id, None)
-                kin_keys.pop(node.targets[0].id, None)
-                deleted.discard(node.targets[0].id)
-            if is_store(node, par):
-                k = unparse(node.targets[0].slice)
-                par_sites[id(node)] = node
-                par_keys[k] = node
-                if k in kin_keys:
-                    conflicts[id(node)] = (node, kin_keys[k])
-                if k not in deleted and _may_be_in(kin, node.targets[0].slice, rd):
-                    open_par[k] = node
-            elif is_del(node, kin):
-                loop = next((a for a in ancestors(node) if isinstance(a, ast.For)), None)
-                if loop is not None:
-                    fam_dels[unparse(loop.iter)] = node
-                k = unparse(node.targets[0].slice)
-                open_par.pop(k, None)
-                kin_keys.pop(k, None)
-                deleted.add(k)
-            elif is_store(node, kin):
-                k = unparse(node.targets[0].slice)
-                kin_keys[k] = node
-                deleted.discard(k)
-                for dom, dnode in fam_dels.items():
-                    if isinstance(node.targets[0].slice, ast.Name) and not _guarded_against(since_iter, dom, par, node.targets[0].slice.id, rd):
-                        readds[id(node)] = (node, dnode, dom)
-                if k in par_keys:
-                    conflicts[id(par_keys[k])] = (par_keys[k], node)
-            elif isinstance(node, ast.Assign) and isinstance(node.targets[0], ast.Name) and node.targets[0].id in {k.split("[")[0] for k in open_par}:
-                pass
+                name = (node.targets[0] if isinstance(node, ast.Assign) else node.target).id
+                open_par.pop(name, None)
+                par_keys.pop(name, None)
+                kin_keys.pop(name, None)
+                deleted.discard(name)
+            if not live:
+                continue
+            if open_par and unread is None:
+                unread = maps.unread_mutation(node, tree)
+            for op, which, key, _ in maps.ops(node):
+                k = maps.key(key)
+                if op == "store" and which == "par":
+                    par_sites[id(node)] = node
+                    par_keys[k] = node
+                    if k in kin_keys:
+                        conflicts[id(node)] = (node, kin_keys[k])
+                    if k not in deleted and _may_be_in(maps, key, rd):
+                        open_par[k] = node
+                elif op == "del" and which == "kin":
+                    loop = next((a for a in ancestors(node) if isinstance(a, ast.For)), None)
+                    if loop is not None:
+                        fam_dels[unparse(loop.iter)] = (node, loop.iter)
+                    open_par.pop(k, None)
+                    kin_keys.pop(k, None)
+                    deleted.add(k)
+                elif op == "store" and which == "kin":
+                    kin_keys[k] = node
+                    deleted.discard(k)
+                    for dom, (dnode, dom_expr) in fam_dels.items():
+                        if isinstance(key, ast.Name):
+                            kind = key_kind(key)
+                            if kind == "other":
+                                continue  # an alignment angle / a symbol of another family: cannot be a removed mass
+                            if kind == "unknown":
+                                undecided.append(f"whether the key of `{unparse(node)[:50]}` can be one of the mass symbols removed for `{dom}` (where it comes from is not read)")
+                                continue
+                            g = _guarded_against(tree, fn, since_iter, dom_expr, maps, key, rd)
+                            if g is None:
+                                undecided.append(f"whether `{unparse(node)[:50]}` is guarded against the symbols removed for `{dom}` depends on a call that is not read")
+                            elif not g:
+                                readds[id(node)] = (node, dnode, dom)
+                    if k in par_keys:
+                        conflicts[id(par_keys[k])] = (par_keys[k], node)
         if p.exit == "return":
             for k, node in open_par.items():
-                unpaired[id(node)] = (node, k)
-    if len(par_sites) < 3:
-        raise AnalysisError(f"{FORMULATE}: only {len(par_sites)} stores into {par} (3 confirmed)")
+                if unread is not None:
+                    undecided.append(f"`{unparse(node)[:60]}`: {unread}, so whether the key is removed cannot be decided")
+                else:
+                    unpaired[id(node)] = (node, k)
+    if not par_sites:
+        raise AnalysisError(f"{FORMULATE}: no store into {par} after the kinematic variables were created (3 confirmed): the mass handling is not found")
+    ctx.stats["formulate_parameter_stores"] = len(par_sites)
     for nid, node in par_sites.items():
         key = f"{FORMULATE}::{unparse(node)[:80]}"
         if nid in conflicts:
@@ -430,8 +934,8 @@ def check_xstore(ctx: Check, tree: Tree) -> None:
                           "create_expressions() defines every invariant-mass symbol of the topology, so the symbol would be both a parameter and a kinematic variable")
         else:
             ctx.ok("R-XSTORE", tree.loc(node), f"formulate: `{unparse(node)[:70]}` - the key cannot stay in {kin} on any of the {len(paths)} paths")
-    kin_stores = [n for n in walk_function(fn.node) if is_store(n, kin)]
-    for node in kin_stores:
+    kin_stores = {id(n): n for op, which, _, n in all_ops if op == "store" and which == "kin"}
+    for node in kin_stores.values():
         key = f"{FORMULATE}::{unparse(node)[:80]}::re-add"
         if id(node) in readds:
             _, dnode, dom = readds[id(node)]
@@ -440,69 +944,217 @@ def check_xstore(ctx: Check, tree: Tree) -> None:
                           f"on a path that executed the removal, no test in the iteration that stores mentions `{dom}` or tests the key itself against {par}")
         else:
             ctx.ok("R-XSTORE", tree.loc(node), f"formulate: `{unparse(node)[:60]}` - every path that removed a family of mass symbols guards the store by that family's domain")
-    check_key_types(ctx, tree, fn, {par, kin})
+    check_key_types(ctx, tree, fn, maps, rd)
+    # formulate removes keys from / adds keys to the kinematic variables IN PLACE: the mapping must be its own
+    # (a fresh object per call), or the parameters of one model leak into the kinematic variables of the next
+    mutations = [n for op, which, _, n in all_ops if which == "kin"]
+    if mutations and maps.kin[0] == "local":
+        origin = [d for d in rd.defs if d.name == maps.kin[1] and d.kind == "assign" and d.value is not None and d.index is None]
+        fkey = f"{FORMULATE}::kinematic-variables-shared"
+        if len(origin) != 1:
+            undecided.append(f"where the kinematic variables `{kin}` (modified in place) come from: {len(origin)} definitions")
+        else:
+            how, why = _freshness(tree, fn, origin[0].value)
+            if how == "shared":
+                ctx.violation("R-XSTORE", fkey, tree.loc(origin[0].node), f"formulate modifies the kinematic variables in place (`{unparse(mutations[0])[:50]}`), but `{unparse(origin[0].value)[:50]}` does not create them: {why}",
+                              "keys removed for one configuration (masses that became parameters) stay removed for every later formulate() of the same builder")
+            elif how == "unknown":
+                undecided.append(f"whether `{unparse(origin[0].value)[:50]}` creates a new mapping per call ({why})")
+            else:
+                ctx.ok("R-XSTORE", tree.loc(origin[0].node), f"formulate modifies the kinematic variables in place; `{unparse(origin[0].value)[:50]}` creates them per call ({why})")
     for nid, (a, b) in conflicts.items():
         if nid not in par_sites:
             ctx.violation("R-XSTORE", f"{FORMULATE}::{unparse(b)[:80]}::both", tree.loc(b), f"formulate: `{unparse(a)[:60]}` and `{unparse(b)[:60]}` on one path")
+    if undecided:
+        raise AnalysisError("R-XSTORE cannot decide: " + " | ".join(sorted(set(undecided)))[:600])
 
 
-def _guarded_against(tests: list[tuple], domain: str, par: str, key: str, rd: RD | None = None) -> bool:
-    """Does one of the tests evaluated in this iteration exclude the removed family?  Accepted
-    idioms: a test that mentions the family's domain expression (or a local with a definition
-    `ids = <domain>`, e.g. `ids = <domain>; if ids is None: ids = set()`), or a membership test of the
-    key itself (the symbol, not a property of it) in the parameter mapping."""
+def _guarded_against(tree: Tree, fn: FuncInfo, tests: list[tuple], domain: ast.AST, maps: _Maps, key: ast.Name, rd: RD) -> bool | None:
+    """Does one of the tests evaluated in this iteration exclude the removed family?  True: a test mentions the
+    family's domain expression, a local bound to it, or any value that data-derives from it (reaching-definition
+    closure); or it is a membership test of the key itself (the symbol, not a property of it) in the parameter
+    mapping.  False: no test does.  None (cannot decide): a test calls a function of the package (not spliced in)
+    on the key or on data derived from it - what it tests is not read."""
+    # the domain and what it was computed from: `stable = {symbol(i): ... for i in self.config.stable_final_state_ids}`
+    # iterated as `stable.items()` is the family of `self.config.stable_final_state_ids` (only what selects the
+    # ELEMENTS counts: the generators and keys of a comprehension, not the values stored with them)
+    def selectors(e: ast.AST) -> list[ast.AST]:
+        if isinstance(e, ast.DictComp):
+            return [e.key, *[g.iter for g in e.generators], *[c for g in e.generators for c in g.ifs]]
+        if isinstance(e, (ast.ListComp, ast.SetComp, ast.GeneratorExp)):
+            return [e.elt, *[g.iter for g in e.generators], *[c for g in e.generators for c in g.ifs]]
+        if isinstance(e, ast.Dict):
+            return [k for k in e.keys if k is not None]
+        return [e]
+
+    roots = {unparse(domain)}
+    for src in [domain, *[d.value for d in _plain_closure(rd, rd.uses(domain)) if d.value is not None]]:
+        for part in selectors(src):
+            for a in ast.walk(part):
+                if isinstance(a, ast.Attribute) and not isinstance(getattr(a, "_parent", None), ast.Attribute):
+                    root = a
+                    while isinstance(root, ast.Attribute):
+                        root = root.value
+                    if isinstance(root, ast.Name) and root.id == "self" and unparse(a).count(".") >= 2 and not (isinstance(getattr(a, "_parent", None), ast.Call) and a._parent.func is a):  # type: ignore[attr-defined]
+                        roots.add(unparse(a))
+
     def mentions(e: ast.AST) -> bool:
-        return any(isinstance(m, (ast.Attribute, ast.Name)) and unparse(m) == domain for m in ast.walk(e))
+        return any(isinstance(m, (ast.Attribute, ast.Name, ast.Call, ast.Subscript)) and unparse(m) in roots for m in ast.walk(e))
 
+    key_defs = rd.reaching(key)
+    opaque = False
     for _, test, _ in tests:
         if mentions(test):
             return True
-        # a local of the test that is *bound to* the domain (not merely data-dependent on it): direct definitions only
-        if rd is not None and any(d.kind == "assign" and d.value is not None and isinstance(d.value, (ast.Name, ast.Attribute)) and unparse(d.value) == domain
-                                  for d in rd.uses(test)):
+        if any(d.value is not None and mentions(d.value) for d in _plain_closure(rd, rd.uses(test))):
             return True
         for n in ast.walk(test):
             if isinstance(n, ast.Compare) and len(n.ops) == 1 and isinstance(n.ops[0], (ast.In, ast.NotIn)):
-                if isinstance(n.left, ast.Name) and n.left.id == key and unparse(n.comparators[0]) == par:
+                if isinstance(n.left, ast.Name) and maps.key(n.left) == maps.key(key) and maps.ident(n.comparators[0]) == maps.par:
                     return True
-    return False
+            if isinstance(n, ast.Call) and hasattr(n, "_module") and tree.callee(n, fn) in tree.funcs:
+                used = rd.closure(rd.uses(n))
+                if used & key_defs or any(isinstance(a, ast.Name) and maps.key(a) == maps.key(key) for a in ast.walk(n)):
+                    opaque = True
+    return None if opaque else False
 
 
-def check_key_types(ctx: Check, tree: Tree, fn: FuncInfo, mappings: set[str]) -> None:
+def _plain_closure(rd: RD, defs, depth: int = 4) -> set:
+    """Definitions a value is COMPUTED from through plain bindings (assignments, loop / comprehension variables):
+    not through containers that were updated in place (a mapping that received a key is not "derived from" it)."""
+    seen: set = set()
+    todo = [(d, 0) for d in defs]
+    while todo:
+        d, k = todo.pop()
+        if d in seen or d.kind not in {"assign", "for", "comp"}:
+            continue
+        seen.add(d)
+        if k < depth:
+            todo += [(x, k + 1) for x in d.deps]
+    return seen
+
+
+def _object_defs(rd: RD, name: ast.Name) -> set:
+    """The definitions that CREATE the object(s) a name refers to: in-place updates (`x[k] = v`, `x.update(..)`)
+    are followed back to the binding they update."""
+    out, seen = set(), set()
+    todo = list(rd.reaching(name))
+    while todo:
+        d = todo.pop()
+        if d in seen:
+            continue
+        seen.add(d)
+        if d.kind in {"store", "aug"}:
+            todo += [x for x in d.deps if x.name == d.name]
+        else:
+            out.add(d)
+    return out
+
+
+_FRESH_CALLS = {"dict", "OrderedDict", "defaultdict", "copy", "deepcopy", "ChainMap", "Counter"}
+
+
+def _freshness(tree: Tree, fn: FuncInfo, e: ast.AST, depth: int = 0) -> tuple[str, str]:
+    """("fresh" | "shared" | "unknown", why) for the mapping an expression of ``fn`` evaluates to."""
+    if isinstance(e, (ast.Dict, ast.DictComp)):
+        return "fresh", "a display"
+    if isinstance(e, ast.IfExp):
+        alts = [_freshness(tree, fn, x, depth) for x in (e.body, e.orelse)]
+        return next((a for a in alts if a[0] == "shared"), next((a for a in alts if a[0] == "unknown"), alts[0]))
+    if isinstance(e, ast.BinOp) and isinstance(e.op, ast.BitOr):
+        return "fresh", "a merged mapping"
+    if isinstance(e, ast.Attribute):
+        root = e
+        while isinstance(root, (ast.Attribute, ast.Subscript)):
+            root = root.value
+        if isinstance(root, ast.Name) and root.id in {"self", "cls"}:
+            return "shared", f"`{unparse(e)}` is state of the object"
+        return "unknown", f"`{unparse(e)[:40]}`"
+    if isinstance(e, ast.Name):
+        rd = RD(fn.node) if fn.outer is None else None
+        if rd is None:
+            return "unknown", "nested function"
+        defs = _object_defs(rd, e)
+        if not defs:
+            return "shared", f"`{e.id}` is a module-level object"
+        verdicts = []
+        for d in defs:
+            if d.kind == "assign" and d.value is not None and d.index is None:
+                verdicts.append(_freshness(tree, fn, d.value, depth))
+            else:
+                verdicts.append(("unknown", f"`{d.name}` is a {d.kind}"))
+        return next((a for a in verdicts if a[0] == "shared"), next((a for a in verdicts if a[0] == "unknown"), verdicts[0]))
+    if isinstance(e, ast.Call):
+        f = e.func
+        name = f.id if isinstance(f, ast.Name) else f.attr if isinstance(f, ast.Attribute) else ""
+        callee = tree.callee(e, fn) if hasattr(e, "_module") else None
+        g = tree.funcs.get(callee) if callee else None
+        if g is None and callee in tree.classes:
+            return "fresh", "a new object"
+        if g is None:
+            if name in _FRESH_CALLS:
+                return "fresh", f"{name}(...)"
+            return "unknown", f"`{unparse(e)[:40]}` is not a function of the package"
+        if depth >= 3:
+            return "unknown", f"{g.qual}: too deep"
+        rets = [n for n in walk_function(g.node, nested=False) if isinstance(n, ast.Return)]
+        if not rets or any(r.value is None for r in rets):
+            return "unknown", f"{g.qual} does not always return a value"
+        verdicts = [_freshness(tree, g, r.value, depth + 1) for r in rets]
+        return next((a for a in verdicts if a[0] == "shared"), next((a for a in verdicts if a[0] == "unknown"), verdicts[0]))
+    return "unknown", f"`{unparse(e)[:40]}`"
+
+
+def check_key_types(ctx: Check, tree: Tree, fn: FuncInfo, maps: _Maps, rd: RD) -> None:
     """R-KEYTYPE: the parameter and kinematic-variable mappings are keyed by symbols; a lookup
-    with a `str` (`.name`, an f-string, a literal) never matches and silently takes the
-    'absent' branch."""
+    with a `str` (`.name`, an f-string, a literal, `str(...)` - directly or through a local bound once) never
+    matches and silently takes the 'absent' branch."""
     n_sites = 0
+    inl = Inliner(fn.node, rd)
+
+    def is_mapping(e: ast.AST) -> bool:
+        return isinstance(e, (ast.Name, ast.Attribute)) and maps.ident(e) in (maps.par, maps.kin)
+
     for n in walk_function(fn.node):
         key = None
-        if isinstance(n, ast.Compare) and len(n.ops) == 1 and isinstance(n.ops[0], (ast.In, ast.NotIn)) and unparse(n.comparators[0]) in mappings:
+        if isinstance(n, ast.Compare) and len(n.ops) == 1 and isinstance(n.ops[0], (ast.In, ast.NotIn)) and is_mapping(n.comparators[0]):
             key = n.left
-        elif isinstance(n, ast.Subscript) and unparse(n.value) in mappings:
+        elif isinstance(n, ast.Subscript) and is_mapping(n.value):
             key = n.slice
-        elif isinstance(n, ast.Call) and isinstance(n.func, ast.Attribute) and n.func.attr in {"get", "pop", "setdefault"} and unparse(n.func.value) in mappings and n.args:
+        elif isinstance(n, ast.Call) and isinstance(n.func, ast.Attribute) and n.func.attr in {"get", "pop", "setdefault", "__contains__", "__getitem__", "__setitem__", "__delitem__"} and is_mapping(n.func.value) and n.args:
             key = n.args[0]
         if key is None:
             continue
         n_sites += 1
-        is_str = isinstance(key, ast.JoinedStr) or (isinstance(key, ast.Constant) and isinstance(key.value, str)) or (isinstance(key, ast.Attribute) and key.attr == "name") or (isinstance(key, ast.Call) and isinstance(key.func, ast.Name) and key.func.id == "str")
+        shown = key
+        if isinstance(key, ast.Name):
+            key = inl.expr(key)
+        is_str = isinstance(key, ast.JoinedStr) or (isinstance(key, ast.Constant) and isinstance(key.value, str)) or (isinstance(key, ast.Attribute) and key.attr == "name") \
+            or (isinstance(key, ast.Call) and isinstance(key.func, ast.Name) and key.func.id in {"str", "repr"})
         if is_str:
-            ctx.violation("R-KEYTYPE", f"{FORMULATE}::{unparse(n)[:80]}", tree.loc(n), f"formulate: `{unparse(n)[:70]}` looks up a str in a mapping keyed by symbols - it never matches")
+            ctx.violation("R-KEYTYPE", f"{FORMULATE}::{unparse(n)[:80]}", tree.loc(n), f"formulate: `{unparse(n)[:70]}` looks up a str in a mapping keyed by symbols - it never matches",
+                          None if shown is key else f"`{unparse(shown)}` is `{unparse(key)[:60]}`")
     ctx.stats["symbol_keyed_lookups"] = n_sites
-    if n_sites < 5:
-        raise AnalysisError(f"{FORMULATE}: only {n_sites} lookups into the symbol-keyed mappings (5 confirmed)")
-    ctx.ok("R-KEYTYPE", tree.loc(fn.node), f"formulate: {n_sites} lookups into {sorted(mappings)} all use symbol-valued keys")
+    if n_sites < 3:
+        raise AnalysisError(f"{FORMULATE}: only {n_sites} lookups into the symbol-keyed mappings (5+ confirmed)")
+    ctx.ok("R-KEYTYPE", tree.loc(fn.node), f"formulate: {n_sites} lookups into {sorted({maps.par_text, maps.kin_text})} all use symbol-valued keys")
 
 
-def _may_be_in(kin: str, key: ast.AST, rd: RD) -> bool:
+def _may_be_in(maps: _Maps, key: ast.AST, rd: RD) -> bool:
     """Can the kinematic-variable mapping already contain this key?  Not if the key was
     taken from the free symbols of an expression into which the mapping was substituted."""
+    def substituted(e: ast.AST) -> bool:
+        return any(isinstance(c, ast.Call) and isinstance(c.func, ast.Attribute) and c.func.attr in {"xreplace", "subs"} and c.args
+                   and isinstance(c.args[0], (ast.Name, ast.Attribute)) and maps.ident(c.args[0]) == maps.kin for c in ast.walk(e))
+
     for d in rd.closure(rd.uses(key)):
         if d.value is not None:
-            txt = unparse(d.value)
-            if "free_symbols" in txt:
+            if any(isinstance(a, ast.Attribute) and a.attr == "free_symbols" for a in ast.walk(d.value)):
                 # ... of an expression that went through .xreplace(<kin>)
+                if substituted(d.value):
+                    return False
                 for d2 in rd.closure(rd.uses(d.value)):
-                    if d2.value is not None and f".xreplace({kin})" in unparse(d2.value):
+                    if d2.value is not None and substituted(d2.value):
                         return False
     return True
 
@@ -510,35 +1162,268 @@ def _may_be_in(kin: str, key: ast.AST, rd: RD) -> bool:
 # --------------------------------------------------------------------------- R-CREATE
 
 
+def _is_param_mapping(e: ast.AST) -> bool:
+    return "parameter_defaults" in unparse(e)
+
+
+def _stores_into_parameters(st: ast.AST) -> list[tuple[ast.AST, ast.AST | None, ast.AST]]:
+    """[(key expression, value expression | None, node)] of the stores into a `...parameter_defaults` mapping that one
+    statement performs: `P[k] = v`, `P.__setitem__(k, v)`, `P.setdefault(k, v)`, `P.update({k: v})`."""
+    out = []
+    if isinstance(st, (ast.Assign, ast.AnnAssign)):
+        for t in (st.targets if isinstance(st, ast.Assign) else [st.target]):
+            if isinstance(t, ast.Subscript) and _is_param_mapping(t.value):
+                out.append((t.slice, st.value, st))
+    for n in ast.walk(st):
+        if isinstance(n, ast.Call) and isinstance(n.func, ast.Attribute) and _is_param_mapping(n.func.value):
+            if n.func.attr in {"setdefault", "__setitem__"} and n.args:
+                out.append((n.args[0], n.args[1] if len(n.args) > 1 else None, st))
+            elif n.func.attr == "update" and len(n.args) == 1 and isinstance(n.args[0], ast.Dict):
+                out += [(k, v, st) for k, v in zip(n.args[0].keys, n.args[0].values) if k is not None]
+    return out
+
+
+def _enclosing(node: ast.AST, stop: ast.AST) -> list[ast.AST]:
+    return [a for a in _anc_until(node, stop) if isinstance(a, (ast.If, ast.For, ast.While, ast.Try, ast.With, ast.AsyncFor))]
+
+
+def _symbol_flow(tree: Tree, gf: FuncInfo, rd: RD, producers: list[ast.AST]) -> dict:
+    """What the effective function ``gf`` does with the value of the ``producers`` (expressions that evaluate to a
+    freshly created symbol): stored as a key of the parameter defaults (unconditionally w.r.t. its creation?),
+    returned, handed to a function of the package that is still a call."""
+    bound: set = set()
+    changed = True
+
+    def is_sym(e: ast.AST) -> bool:
+        if any(e is p for p in producers):
+            return True
+        if isinstance(e, ast.Name) and isinstance(e.ctx, ast.Load):
+            r = rd.reaching(e)
+            return bool(r) and r <= bound
+        return False
+
+    while changed:
+        changed = False
+        for d in rd.defs:
+            if d not in bound and d.kind == "assign" and d.index is None and d.value is not None and is_sym(d.value):
+                bound.add(d)
+                changed = True
+    flow = {"stored": [], "conditional": [], "returned": [], "passed": []}
+    stmt_of = {}
+    for st in walk_function(gf.node):
+        if isinstance(st, ast.stmt) and not isinstance(st, (ast.If, ast.For, ast.While, ast.Try, ast.With, ast.FunctionDef)):
+            for n in ast.walk(st):
+                stmt_of.setdefault(id(n), st)
+    created_at = [stmt_of.get(id(p)) for p in producers]
+    for st in {id(s): s for s in stmt_of.values()}.values():
+        for key, _, node in _stores_into_parameters(st):
+            if not is_sym(key):
+                continue
+            outer = [a for a in _enclosing(node, gf.node) if not any(c is not None and any(x is a for x in _enclosing(c, gf.node)) for c in created_at)]
+            membership_only = all(isinstance(a, ast.If) and isinstance(a.test, ast.Compare) and len(a.test.ops) == 1 and isinstance(a.test.ops[0], (ast.In, ast.NotIn))
+                                  and is_sym(a.test.left) and _is_param_mapping(a.test.comparators[0]) for a in outer)
+            flow["stored" if not outer or membership_only else "conditional"].append(node)
+        if isinstance(st, ast.Return) and st.value is not None:
+            vals = st.value.elts if isinstance(st.value, ast.Tuple) else [st.value]
+            if any(is_sym(v) for v in vals):
+                flow["returned"].append(st)
+        for n in ast.walk(st):
+            if isinstance(n, ast.Call) and hasattr(n, "_module") and not any(n is p for p in producers):
+                callee = tree.callee(n, gf)
+                if callee in tree.funcs and any(is_sym(a) for a in [*n.args, *[k.value for k in n.keywords]]):
+                    flow["passed"].append(n)
+    return flow
+
+
+def _registered(tree: Tree, reader, q: str, positions: set, via: set[str], depth: int = 0) -> tuple[str, str]:
+    """("ok" | "violation" | "undecided", why): is the symbol constructed at ``positions`` (source positions of the
+    constructor calls) - or returned unregistered by a function in ``via`` - registered as a parameter by the
+    effective function ``q``, or by every function it is returned to?"""
+    gf = flatten(tree, tree.func(q))
+    rd = RD(gf.node)
+    producers = []
+    for n in walk_function(gf.node):
+        if isinstance(n, ast.Call) and hasattr(n, "_module"):
+            if (n._module.relpath, n.lineno, n.col_offset) in positions and tree.callee(n, gf) in {"sympy.Symbol", "sympy.Dummy", "sympy.symbols"}:  # type: ignore[attr-defined]
+                producers.append(n)
+            elif tree.callee(n, gf) in via:
+                producers.append(n)
+    name = q.split(".")[-1]
+    if not producers:
+        return "undecided", f"{name}: the construction is not found in the effective function"
+    flow = _symbol_flow(tree, gf, rd, producers)
+    if flow["stored"]:
+        return "ok", f"{name} stores it in parameter_defaults"
+    if flow["conditional"]:
+        return "undecided", f"{name}: `{unparse(flow['conditional'][0])[:60]}` registers it under a condition that is not read"
+    if flow["passed"]:
+        return "undecided", f"{name}: handed to `{unparse(flow['passed'][0])[:50]}`, which is not read"
+    if flow["returned"]:
+        fn = tree.func(q)
+        callers = reader.callers(fn)
+        if not reader.is_private(fn) or not callers or depth >= 3:
+            return "undecided", f"{name} returns the symbol unregistered and its callers are not all known"
+        results = [_registered(tree, reader, c.qual, positions, via | {q}, depth + 1) for c in {c.qual: c for c, _ in callers}.values()]
+        for kind in ("violation", "undecided"):
+            hit = next((r for r in results if r[0] == kind), None)
+            if hit:
+                return hit
+        return "ok", f"every caller of {name} registers it ({results[0][1]})"
+    return "violation", f"{name} neither stores the created symbol in parameter_defaults nor returns it"
+
+
 def check_create(ctx: Check, tree: Tree) -> None:
-    for name in ("__generate_amplitude_coefficient", "__generate_helicity_coupling"):
-        fn = flatten(tree, tree.func(f"{BUILDER}.{name}"))
-        rd = RD(fn.node)
-        created = [d for d in rd.defs if d.value is not None and isinstance(d.value, ast.Call) and tree.callee(d.value, fn) == "sympy.Symbol"]
-        stored = {unparse(n.targets[0].slice) for n in walk_function(fn.node) if isinstance(n, ast.Assign) and isinstance(n.targets[0], ast.Subscript) and "parameter_defaults" in unparse(n.targets[0].value)}
-        returned = {unparse(r.value) for r, _ in rd.returns if r.value is not None}
-        ok = len(created) == 1 and created[0].name in stored and created[0].name in returned
-        ctx.verdict(ok, "R-CREATE", f"{fn.qual}::registered", tree.loc(fn.node), f"{name}: the created symbol is stored in parameter_defaults and returned",
-                    None if ok else {"created": [d.name for d in created], "stored": sorted(stored), "returned": sorted(returned)})
-    dyn = flatten(tree, tree.func(f"{BUILDER}.__formulate_dynamics"))  # the registration loop may live in a private helper
-    drd = RD(dyn.node)
-    ok = False
-    for loop in [n for n in walk_function(dyn.node) if isinstance(n, ast.For) and isinstance(n.iter, ast.Call) and isinstance(n.iter.func, ast.Attribute) and n.iter.func.attr == "items"]:
-        # the iterated mapping is the second element of what the builder returned
-        base = loop.iter.func.value
-        src = list(drd.reaching(base)) if isinstance(base, ast.Name) else []
-        from_builder = any(d.index == 1 and d.value is not None and isinstance(d.value, ast.Call) for d in src)
-        if not (from_builder and isinstance(loop.target, ast.Tuple) and len(loop.target.elts) == 2):
-            continue
-        k, v = (unparse(e) for e in loop.target.elts)
-        for st in walk_function(loop):
-            if isinstance(st, ast.Assign) and isinstance(st.targets[0], ast.Subscript) and "parameter_defaults" in unparse(st.targets[0].value) \
-                    and unparse(st.targets[0].slice) == k and unparse(st.value) == v and not any(isinstance(a, ast.If) for a in _anc_until(st, loop)):
-                # ... and no earlier statement of the iteration can skip it (`if ...: continue` is a condition too)
-                before = loop.body[: loop.body.index(st)] if st in loop.body else None
-                if before is not None and not any(isinstance(n, (ast.Continue, ast.Break, ast.Return)) for b in before for n in ast.walk(b)):
-                    ok = True
-    ctx.verdict(ok, "R-CREATE", f"{dyn.qual}::registers-builder-parameters", tree.loc(dyn.node), "__formulate_dynamics registers every parameter suggested by the dynamics builder (unconditionally)")
+    """R-CREATE, three-valued.  Anchors are the SYMBOLS (`C_{...}` coefficients, `H_{...}` couplings), not function
+    names: wherever the builder constructs one, the effective function stores it as a key of the parameter defaults,
+    or returns it to functions that all do."""
+    from ..rules import _name_reader
+
+    reader = _name_reader(tree)
+    sites = [s for s in symbol_sites(tree, [BUILDER + "."]) if s["skeleton"] and re.match(r"[CH]_\{", s["skeleton"])]
+    undecided: list[str] = []
+    for prefix, what in (("C_", "amplitude coefficients"), ("H_", "helicity couplings")):
+        if not any(s["skeleton"].startswith(prefix) for s in sites):
+            undecided.append(f"no construction of a `{prefix}{{...}}` symbol ({what}) was read in {BUILDER.split('::')[-1]}")
+    by_fn: dict[str, set] = {}
+    for s in sites:
+        n = s["node"]
+        by_fn.setdefault(s["fn"], set()).add((n._module.relpath, n.lineno, n.col_offset))
+    # a shared factory (`__register_unit_parameter(name)`) is one site with several names: judged once
+    for q, positions in sorted(by_fn.items()):
+        fn = tree.func(q)
+        kind, why = _registered(tree, reader, q, positions, set())
+        families = sorted({s["skeleton"] for s in sites if s["fn"] == q})
+        what = f"{fn.name}: the created symbol ({', '.join(families)}) is stored in parameter_defaults and returned"
+        if kind == "undecided":
+            undecided.append(why)
+        else:
+            ctx.verdict(kind == "ok", "R-CREATE", f"{fn.qual}::registered", tree.loc(fn.node), what, None if kind == "ok" else why)
+    _check_builder_parameters(ctx, tree, undecided)
+    if undecided:
+        raise AnalysisError("R-CREATE cannot decide: " + " | ".join(undecided)[:600])
+
+
+_DYNAMICS = re.compile(r"\bself\.(_\w*)?dynamics\b")
+
+
+def _check_builder_parameters(ctx: Check, tree: Tree, undecided: list[str]) -> None:
+    """The parameters a dynamics builder suggests (`expression, parameters = builder(...)`, builder taken from
+    `self.dynamics`) are all registered, and they are the ones THIS call of the builder returned (registered where
+    they are created - not read back from a table that outlives the call)."""
+    builder = tree.cls(BUILDER)
+    judged = False
+    loose: list[tuple] = []
+    for m in builder.methods.values():
+        gf = flatten(tree, m)  # the registration loop may live in a private helper
+        # the same statements spliced into a caller's effective function are judged where they are written
+        own_lines = {getattr(n, "lineno", -1) for n in walk_function(m.node) if isinstance(n, ast.stmt)}
+        rd = RD(gf.node)
+        inl = Inliner(gf.node, rd)
+
+        def is_builder_call(e: ast.AST) -> bool:
+            return isinstance(e, ast.Call) and bool(_DYNAMICS.search(unparse(inl.expr(e.func))))
+
+        def source(e: ast.AST) -> tuple[str, str] | None:
+            """("builder" | "memo", text) if ``e`` is element 1 of what a dynamics builder returned"""
+            if not isinstance(e, ast.Name):
+                return None
+            if not any(getattr(d.node, "lineno", -1) in own_lines for d in rd.reaching(e)):
+                return None  # written in another function (this one was spliced into a caller): judged there
+            x = inl.expr(e)
+            if not (isinstance(x, ast.Subscript) and isinstance(x.slice, ast.Constant) and x.slice.value == 1):
+                return None
+            base = x.value
+            if isinstance(base, ast.Call) and _DYNAMICS.search(unparse(base.func)):
+                return "builder", unparse(base)[:60]
+            if isinstance(base, ast.Subscript):
+                table = unparse(base.value)
+                for st in walk_function(gf.node):
+                    if isinstance(st, ast.Assign) and isinstance(st.targets[0], ast.Subscript) and unparse(inl.expr(st.targets[0].value)) == table and is_builder_call(st.value):
+                        return "memo", table
+            return None
+
+        key = f"{gf.qual}::registers-builder-parameters"
+        what = f"{m.name} registers every parameter suggested by the dynamics builder (unconditionally)"
+        ok_sites, conditional, memo = [], [], []
+        for n in walk_function(gf.node):
+            # P.update(parameters) / P |= parameters
+            cand = None
+            if isinstance(n, ast.Call) and isinstance(n.func, ast.Attribute) and n.func.attr == "update" and _is_param_mapping(n.func.value) and len(n.args) == 1:
+                cand = n.args[0]
+            if isinstance(n, ast.AugAssign) and isinstance(n.op, ast.BitOr) and _is_param_mapping(n.target):
+                cand = n.value
+            if cand is not None and source(cand):
+                if source(cand)[0] == "memo":
+                    memo.append((n, source(cand)[1]))
+                else:
+                    (conditional if _enclosing(n, gf.node) else ok_sites).append(n)
+            if isinstance(n, ast.For):
+                it = n.iter
+                if isinstance(it, ast.Call) and isinstance(it.func, ast.Name) and it.func.id in {"sorted", "list", "tuple"} and it.args:
+                    it = it.args[0]
+                over_items = isinstance(it, ast.Call) and isinstance(it.func, ast.Attribute) and it.func.attr == "items" and isinstance(n.target, ast.Tuple) and len(n.target.elts) == 2
+                mapping = it.func.value if isinstance(it, ast.Call) and isinstance(it.func, ast.Attribute) and it.func.attr in {"items", "keys"} else it
+                src = source(mapping)
+                if src is None:
+                    continue
+                if src[0] == "memo":
+                    memo.append((n, src[1]))
+                    continue
+                k = unparse(n.target.elts[0] if over_items else n.target)
+                v = unparse(n.target.elts[1]) if over_items else None
+                for st in walk_function(n):
+                    for key_e, val_e, node in (_stores_into_parameters(st) if isinstance(st, ast.stmt) and not isinstance(st, (ast.If, ast.For, ast.While, ast.Try, ast.With)) else []):
+                        if unparse(key_e) != k:
+                            continue
+                        right_value = val_e is not None and (unparse(val_e) == v if over_items else (isinstance(val_e, ast.Subscript) and source(val_e.value) is not None and unparse(val_e.slice) == k))
+                        if not right_value:
+                            conditional.append(node)
+                            continue
+                        inner = [a for a in _anc_until(node, n) if isinstance(a, (ast.If, ast.For, ast.While, ast.Try, ast.With))]
+                        # ... and no earlier statement of the iteration can skip it (`if ...: continue` is a condition too)
+                        before = n.body[: n.body.index(node)] if node in n.body else None
+                        skipped = before is None or any(isinstance(x, (ast.Continue, ast.Break, ast.Return)) for b in before for x in ast.walk(b))
+                        (conditional if inner or skipped or _enclosing(n, gf.node) else ok_sites).append(node)
+        if memo:
+            judged = True
+            ctx.violation("R-CREATE", key, tree.loc(memo[0][0]), what, f"the registered parameters are read back from the table `{memo[0][1]}` instead of being the ones this call of the builder returned: they are not registered where they are created")
+        elif ok_sites:
+            judged = True
+            ctx.ok("R-CREATE", tree.loc(gf.node), what)
+        elif conditional:
+            judged = True
+            ctx.violation("R-CREATE", key, tree.loc(conditional[0]), what, f"`{unparse(conditional[0])[:70]}` is conditional (or stores another value): some suggested parameters stay undefined")
+        else:
+            # a builder is called here, but what it suggests is not registered in a way that was read
+            for d in rd.defs:
+                if d.kind == "assign" and d.index == 1 and isinstance(d.value, ast.Call) and is_builder_call(d.value) and getattr(d.node, "lineno", -1) in own_lines:
+                    loads = [x for x in walk_function(gf.node) if isinstance(x, ast.Name) and isinstance(x.ctx, ast.Load) and d in rd.reaching(x)]
+                    loose.append((m, gf, d, loads, key, what))
+    for m, gf, d, loads, key, what in loose:
+        judged = True
+        # where could the suggested parameters still be registered?  handed to a function of the package, returned,
+        # stored away, or iterated by a loop that hands the items on; a loop that only reads them registers nothing
+        escapes = []
+        for x in loads:
+            par = getattr(x, "_parent", None)
+            if isinstance(par, ast.Call) and hasattr(par, "_module") and tree.callee(par, gf) in tree.funcs and par.func is not x:
+                escapes.append(par)
+            elif isinstance(par, (ast.Return, ast.Tuple, ast.Assign, ast.keyword, ast.Starred, ast.Dict, ast.Yield)):
+                escapes.append(par)
+            loop = next((a for a in ancestors(x) if isinstance(a, (ast.For, ast.comprehension)) and any(n is x for n in ast.walk(a.iter))), None)
+            if isinstance(loop, ast.For):
+                names = {n.id for n in ast.walk(loop.target) if isinstance(n, ast.Name)}
+                for c in [n for st in loop.body for n in ast.walk(st) if isinstance(n, ast.Call) and hasattr(n, "_module")]:
+                    if tree.callee(c, gf) in tree.funcs and any(isinstance(a, ast.Name) and a.id in names for a in ast.walk(c)):
+                        escapes.append(c)
+            elif loop is not None:
+                escapes.append(loop.iter)
+        if not escapes:
+            ctx.violation("R-CREATE", key, tree.loc(d.node), what, "the mapping of suggested parameters is never stored into parameter_defaults")
+        else:
+            undecided.append(f"{m.name}: what happens to the parameters the dynamics builder suggests (`{unparse(escapes[0])[:50]}`) is not read")
+    if not judged:
+        undecided.append(f"no `expression, parameters = <builder from self.dynamics>(...)` was found in {BUILDER.split('::')[-1]}")
 
 
 def _anc_until(node, stop):
@@ -551,42 +1436,151 @@ def _anc_until(node, stop):
 def check_backsubstitution(ctx: Check, tree: Tree) -> None:
     """Clause (d), structural part: the alignment-angle definitions that become kinematic
     variables are back-substituted with the (completed) kinematic variables, so that only
-    four-momenta and parameters remain."""
+    four-momenta and parameters remain.
+
+    Three-valued: a VIOLATION needs a definition that is read and is stored without the substitution, substituted
+    before the completion, or never reaches the kinematic variables; a loop / store / merge of another shape is
+    "cannot decide"."""
     fn = flatten(tree, tree.func(FORMULATE))
     rd = RD(fn.node)
-    loops = [n for n in walk_function(fn.node) if isinstance(n, ast.For) and "alignment_symbols" in unparse(n.iter)]
+    maps = _Maps(fn, rd, _model_argument(tree, "parameter_defaults", fn), _model_argument(tree, "kinematic_variables", fn))
+    kin = maps.kin_text
+    d_defs = _alignment_definitions(rd)
+    if not d_defs:
+        raise AnalysisError(f"{FORMULATE}: vanished anchor: no `<alignment>.define_symbols(...)` value in the effective formulate")
+
+    def is_defs(e: ast.AST) -> bool:
+        """the mapping of alignment definitions (or a local that merely aliases it)"""
+        if isinstance(e, ast.Name) and isinstance(e.ctx, ast.Load):
+            r = _object_defs(rd, e)
+            if r and r <= d_defs:
+                return True
+            if len(r) == 1:
+                d = next(iter(r))
+                return d.kind == "assign" and d.index is None and isinstance(d.value, ast.Name) and is_defs(d.value)
+        return False
+
+    def iterated(it: ast.AST) -> tuple[bool, bool]:
+        """(iterates the definitions, as items)"""
+        if isinstance(it, ast.Call) and isinstance(it.func, ast.Name) and it.func.id in {"sorted", "list", "tuple", "reversed"} and it.args:
+            return iterated(it.args[0])
+        if isinstance(it, ast.Call) and isinstance(it.func, ast.Attribute) and it.func.attr in {"items", "keys"} and not it.args and is_defs(it.func.value):
+            return True, it.func.attr == "items"
+        return is_defs(it), False
+
+    loops = [n for n in walk_function(fn.node) if isinstance(n, ast.For) and iterated(n.iter)[0]]
     if len(loops) != 1:
-        raise AnalysisError(f"{FORMULATE}: expected one loop over the alignment symbols")
+        raise AnalysisError(f"{FORMULATE}: expected one loop over the alignment definitions (`define_symbols(...)`), found {len(loops)}")
     loop = loops[0]
-    stores = [n for n in loop.body if isinstance(n, ast.Assign) and isinstance(n.targets[0], ast.Subscript) and "alignment_symbols" in unparse(n.targets[0].value)]
-    model_call = next(c for c, callee in tree.calls_in(fn) if callee == MODEL)
-    kin = unparse(next(k.value for k in model_call.keywords if k.arg == "kinematic_variables"))
-    problems = []
-    if len(stores) != 1:
-        problems.append("the back-substituted definition is not stored back")
-    else:
-        st = stores[0]
-        idx = loop.body.index(st)
-        # the last definition of the stored value is `<expr>.xreplace(<kinematic variables>)` ...
+    as_items = iterated(loop.iter)[1]
+    if as_items and not (isinstance(loop.target, ast.Tuple) and len(loop.target.elts) == 2 and all(isinstance(e, ast.Name) for e in loop.target.elts)):
+        raise AnalysisError(f"{FORMULATE}: the loop over the alignment definitions does not unpack (symbol, definition)")
+    if not as_items and not isinstance(loop.target, ast.Name):
+        raise AnalysisError(f"{FORMULATE}: the loop over the alignment definitions has no plain loop variable")
+    key_name = loop.target.elts[0].id if as_items else loop.target.id  # type: ignore[union-attr]
+    val_name = loop.target.elts[1].id if as_items else None  # type: ignore[union-attr]
+    top_index = {}
+    for i, st in enumerate(loop.body):
+        for n in ast.walk(st):
+            top_index[id(n)] = i
+    # inner loops that complete the kinematic variables (missing mass definitions)
+    completing = [i for i, st in enumerate(loop.body) if isinstance(st, (ast.For, ast.While)) and any(op == "store" and which == "kin" for x in ast.walk(st) if isinstance(x, ast.stmt) for op, which, _, _ in maps.ops(x))]
+    stores = []
+    for st in walk_function(loop):
+        if isinstance(st, ast.Assign) and len(st.targets) == 1 and isinstance(st.targets[0], ast.Subscript) and isinstance(st.targets[0].slice, ast.Name) and st.targets[0].slice.id == key_name \
+                and rd.reaching(st.targets[0].slice) and all(d.kind == "for" and d.node is loop for d in rd.reaching(st.targets[0].slice)):
+            stores.append(st)
+    if not stores:
+        raise AnalysisError(f"{FORMULATE}: the loop over the alignment definitions stores nothing under the iterated angle symbol: where the definitions go is not understood")
+
+    def substitution(v: ast.AST) -> bool:
+        return isinstance(v, ast.Call) and isinstance(v.func, ast.Attribute) and v.func.attr in {"xreplace", "subs"} and len(v.args) == 1 and not v.keywords \
+            and isinstance(v.args[0], (ast.Name, ast.Attribute)) and maps.ident(v.args[0]) == maps.kin
+
+    def raw_definition(v: ast.AST, depth: int = 0) -> bool:
+        """the definition as `define_symbols` returned it (the loop's value variable, `<definitions>[symbol]`)"""
+        if isinstance(v, ast.Subscript) and is_defs(v.value) and isinstance(v.slice, ast.Name) and v.slice.id == key_name:
+            return True
+        if isinstance(v, ast.Name) and depth < 6:
+            r = rd.reaching(v)
+            return bool(r) and all((d.kind == "for" and d.node is loop and v.id == val_name) or (d.kind == "assign" and d.index is None and d.value is not None and raw_definition(d.value, depth + 1)) for d in r)
+        return False
+
+    problems: list[str] = []
+    undecided: list[str] = []
+    targets = []
+    for st in stores:
         val = st.value
+        targets.append(st.targets[0].value)
         # (value, statement that computes it): the definitions of the stored name, or the stored expression itself
         computed = [(d.value, d.node) for d in rd.reaching(val)] if isinstance(val, ast.Name) else [(val, st)]
-        ok_def = bool(computed) and all(v is not None and isinstance(v, ast.Call) and isinstance(v.func, ast.Attribute) and v.func.attr == "xreplace"
-                                        and v.args and unparse(v.args[0]) == kin for v, _ in computed)
-        if not ok_def:
+        if not computed:
+            undecided.append(f"the stored value `{unparse(val)[:40]}` has no definition")
+            continue
+        if all(v is not None and substitution(v) for v, _ in computed):
+            # ... and it is computed after the loop that completes the kinematic variables
+            positions = [top_index[id(at)] for _, at in computed if id(at) in top_index]
+            if len(positions) != len(computed):
+                undecided.append(f"`{unparse(val)[:40]}` is computed outside the loop over the definitions")
+            elif completing and min(positions) < max(completing):
+                problems.append("the substitution happens before the missing mass definitions are added")
+        elif all(v is not None and raw_definition(v) for v, _ in computed):
             problems.append(f"the stored definition `{unparse(val)}` is not `<angle expression>.xreplace({kin})`")
-        # ... and it is computed after the loop that completes the kinematic variables
-        inner = [i for i, n in enumerate(loop.body) if isinstance(n, ast.For)]
-        def_positions = [loop.body.index(at) for _, at in computed if at in loop.body]
-        if inner and def_positions and min(def_positions) < max(inner):
-            problems.append("the substitution happens before the missing mass definitions are added")
-        if unparse(st.targets[0].slice) != unparse(loop.target.elts[0] if isinstance(loop.target, ast.Tuple) else loop.target):
-            problems.append("stored under another key than the iterated angle symbol")
-    merged = [n for n in walk_function(fn.node) if isinstance(n, ast.Call) and isinstance(n.func, ast.Attribute) and n.func.attr == "update" and unparse(n.func.value) == kin and n.args and "alignment_symbols" in unparse(n.args[0])]
-    if len(merged) != 1:
-        problems.append("the alignment definitions are not merged into the kinematic variables")
+        else:
+            undecided.append(f"the stored value `{unparse(val)[:50]}` is neither `<definition>.xreplace({kin})` nor the definition itself")
+    # the mapping that receives the back-substituted definitions reaches the kinematic variables
+    for tgt in targets:
+        if maps.ident(tgt) == maps.kin:
+            continue  # stored into the kinematic variables directly
+        if not isinstance(tgt, ast.Name):
+            undecided.append(f"the definitions are stored into `{unparse(tgt)[:40]}`")
+            continue
+        def is_target(e: ast.AST, t_name=tgt.id) -> bool:
+            if not (isinstance(e, ast.Name) and isinstance(e.ctx, ast.Load)):
+                return False
+            if maps.ident(e) == ("local", t_name):
+                return True
+            r = rd.reaching(e)
+            return len(r) == 1 and next(iter(r)).kind == "assign" and isinstance(next(iter(r)).value, ast.Name) and is_target(next(iter(r)).value)
+
+        after = [n for n in walk_function(fn.node) if getattr(n, "lineno", 0) and not any(a is loop for a in ancestors(n)) and n is not loop]
+        merged = [n for n in after if isinstance(n, ast.Call) and isinstance(n.func, ast.Attribute) and n.func.attr == "update" and maps.ident(n.func.value) == maps.kin and len(n.args) == 1 and is_target(n.args[0])]
+        merged += [n for n in after if isinstance(n, ast.AugAssign) and isinstance(n.op, ast.BitOr) and maps.ident(n.target) == maps.kin and is_target(n.value)]
+        if len(merged) == 1:
+            order = [n for n in walk_function(fn.node) if n is loop or n is merged[0]]
+            if order and order[0] is not loop:
+                problems.append("the alignment definitions are merged into the kinematic variables before they are back-substituted")
+            continue
+        if len(merged) > 1:
+            undecided.append("the back-substituted definitions are merged more than once")
+            continue
+        # not merged by `update`: is the mapping used at all after the loop?
+        later_uses = [n for n in walk_function(fn.node) if isinstance(n, ast.Name) and isinstance(n.ctx, ast.Load) and is_target(n) and not any(a is loop for a in ancestors(n))
+                      and _after(fn.node, loop, n)]
+        if later_uses:
+            undecided.append(f"how `{unparse(getattr(later_uses[0], '_parent', later_uses[0]))[:60]}` brings the back-substituted definitions into the kinematic variables is not understood")
+        else:
+            problems.append("the alignment definitions are not merged into the kinematic variables")
+    if undecided and not problems:
+        raise AnalysisError(f"{FORMULATE}: R-BACKSUB cannot decide: " + " | ".join(undecided)[:500])
     ctx.verdict(not problems, "R-BACKSUB", f"{FORMULATE}::alignment-backsubstitution", tree.loc(loop),
                 "formulate: every alignment angle definition is stored as <definition>.xreplace(kinematic_variables) after the missing mass variables were added, then merged into the kinematic variables", problems or None)
+
+
+def _alignment_definitions(rd: RD) -> set:
+    """The definitions `x = <alignment>.define_symbols(...)` of a function."""
+    return {d for d in rd.defs if d.kind == "assign" and d.index is None and isinstance(d.value, ast.Call) and isinstance(d.value.func, ast.Attribute) and d.value.func.attr == "define_symbols"}
+
+
+def _after(fn_node: ast.AST, first: ast.AST, second: ast.AST) -> bool:
+    """Does ``second`` come after (and outside) the statement ``first`` in the body of the function?"""
+    seen = False
+    for n in walk_function(fn_node):
+        if n is first:
+            seen = True
+        elif n is second:
+            return seen
+    return False
 
 
 def check_same_topology(ctx: Check, tree: Tree) -> None:
@@ -620,6 +1614,7 @@ def run(ctx: Check, tree: Tree) -> None:
         "R-SYMPAIR: every symbol family that is constructed at several sites of helicity/kinematics agrees in kind and assumptions; single producers stay single; Wigner-angle suffixes come from get_helicity_suffix",
         "R-XSTORE: on every path through formulate a mass symbol stored as parameter is removed from / cannot be in the kinematic variables",
         "R-CREATE: coefficient, coupling and builder parameters are registered where they are created",
+        "R-RECURSE: compute_helicity_angles merges the angles of every sub-decay (descent iff the child decays further), so the angle symbols of nested decays are defined",
     ]
     ctx.not_decided += [
         "kinematic-variable expressions depend on four-momenta only after inserting defaults (value level)",
@@ -644,3 +1639,8 @@ def run(ctx: Check, tree: Tree) -> None:
     from .c04 import check_topology_helpers
 
     ctx.section(check_topology_helpers, ctx, tree)
+    # the adapter defines the angle symbols of EVERY sub-decay: compute_helicity_angles descends into a child iff it
+    # decays further (a skipped sub-decay leaves its phi / theta symbols without definition - "never neither")
+    from .c07 import check_recursion_shape
+
+    ctx.section(check_recursion_shape, ctx, tree)
